@@ -26,6 +26,7 @@ pub const TARGETS: &[FnTarget] = &[
     FnTarget { file: "compiler.rs", owner: Some("Compiler"), name: "patch_jump", lean: "patch_jump", havoc: &[], ignore_cfg_features: &[] },
     FnTarget { file: "compiler.rs", owner: Some("Compiler"), name: "resolve_local", lean: "compiler_resolve_local", havoc: &[], ignore_cfg_features: &[] },
     FnTarget { file: "compiler.rs", owner: Some("Compiler"), name: "add_upvalue", lean: "compiler_add_upvalue", havoc: &[], ignore_cfg_features: &[] },
+    FnTarget { file: "compiler.rs", owner: Some("Parser"), name: "emit_scope_end", lean: "emit_scope_end", havoc: &[], ignore_cfg_features: &[] },
     FnTarget { file: "compiler.rs", owner: Some("Parser"), name: "emit_loop", lean: "emit_loop", havoc: &[], ignore_cfg_features: &[] },
     FnTarget { file: "compiler.rs", owner: Some("Parser"), name: "patch_offset_at", lean: "patch_offset_at", havoc: &[], ignore_cfg_features: &[] },
     FnTarget { file: "object.rs", owner: Some("ExcHandler"), name: "has_catch_block", lean: "handler_has_catch_block", havoc: &[], ignore_cfg_features: &[] },
@@ -171,6 +172,7 @@ fn translate_one(srcs: &[Src], db: &TypeDb, consts: &BTreeMap<String, i128>, t: 
             accessors: BTreeSet::new(),
             loop_fuel: false,
             loop_depth: 0,
+            for_konts: Vec::new(),
             epoch: 0,
             struct_params: BTreeMap::new(),
             vm_mode: matches!(owner.as_deref(), Some("Vm") | Some("ObjFiber")),
@@ -494,6 +496,7 @@ fn new_cx<'a>(
         accessors: BTreeSet::new(),
         loop_fuel: false,
         loop_depth: 0,
+        for_konts: Vec::new(),
         epoch: 0,
         struct_params: BTreeMap::new(),
         vm_mode: false,
